@@ -47,6 +47,7 @@ Inductive stmt : Type :=
 | SImport (m : string)                                          (* import a.b.c — binds the top-level name a *)
 | SImportAs (m a : string)                                      (* import a.b.c as a — binds a to module a.b.c *)
 | SFrom (m n a : string)                                        (* from a.b import n as a (n: attribute or submodule) *)
+| SFromN (m : string) (names : list (string * string))          (* from a.b import n1 as a1, n2 as a2, .. *)
 | SDef (f : string) (params : list string) (body : expr)        (* def f(ps): return body *)
 | SClass (c : string) (attrs : list (string * expr))            (* class c: a1 = e1; ... *)
 | SSave (names : list string) (kws : list (string * expr))      (* save('n1', .., k1=e1, ..) *)
@@ -745,34 +746,70 @@ Definition mod_attr (mt : list (string * ns)) (ld : list string) (m a : string) 
 
 Definition mod_key (v : value) (dflt : string) : string := match v with PModule c => c | _ => dflt end.
 
-(** one import statement: (name bound, object) or the error, and the new sys.modules *)
+(** importlib._handle_fromlist: names of the from-list that are not attributes of the package yet
+    are tried as sub-modules, before any name is bound *)
+Definition preload_fromlist (mt : list (string * ns)) (m key : string) (names : list (string * string))
+           (ld : list string) : list string :=
+  fold_left (fun l na =>
+               match mod_attr mt l key (fst na) with
+               | Some _ => l
+               | None => let sub := m ++ "." ++ fst na in
+                         match mod_get sub mt with
+                         | Some _ => if mem sub l then l else (l ++ [sub])%list
+                         | None => l
+                         end
+               end) names ld.
+
+(** every name of the from-list is looked up on the SAME module object, the one named by the statement *)
+Fixpoint from_binds (mt : list (string * ns)) (ld : list string) (key : string) (names : list (string * string))
+  : option (list (string * value)) :=
+  match names with
+  | [] => Some []
+  | (n, a) :: r => match mod_attr mt ld key n, from_binds mt ld key r with
+                   | Some v, Some bs => Some ((a, v) :: bs)
+                   | _, _ => None
+                   end
+  end.
+
+(** one import statement: the (name, object) pairs it binds, in order, or the error; and the new sys.modules *)
 Definition import_effect (mt : list (string * ns)) (ld : list string) (st : stmt)
-  : res (string * value) * list string :=
+  : res (list (string * value)) * list string :=
   match st with
   | SImport m =>
       match load_chain mt (mod_prefixes m) ld with
       | (true, ld') => match mod_prefixes m with
-                       | top :: _ => (Ok (top, mod_value mt top), ld')
+                       | top :: _ => (Ok [(top, mod_value mt top)], ld')
                        | [] => (Unsup, ld')
                        end
       | (false, ld') => (Err "ModuleNotFoundError" "", ld')
       end
   | SImportAs m a =>
       match load_chain mt (mod_prefixes m) ld with
-      | (true, ld') => (Ok (a, mod_value mt m), ld')
+      | (true, ld') => (Ok [(a, mod_value mt m)], ld')
       | (false, ld') => (Err "ModuleNotFoundError" "", ld')
       end
   | SFrom m n a =>
       match load_chain mt (mod_prefixes m) ld with
       | (true, ld') =>
           match mod_attr mt ld' (mod_key (mod_value mt m) m) n with
-          | Some v => (Ok (a, v), ld')
+          | Some v => (Ok [(a, v)], ld')
           | None =>
               let sub := m ++ "." ++ n in
               match mod_get sub mt with
-              | Some _ => (Ok (a, mod_value mt sub), if mem sub ld' then ld' else (ld' ++ [sub])%list)
+              | Some _ => (Ok [(a, mod_value mt sub)], if mem sub ld' then ld' else (ld' ++ [sub])%list)
               | None => (Err "ImportError" "", ld')
               end
+          end
+      | (false, ld') => (Err "ModuleNotFoundError" "", ld')
+      end
+  | SFromN m names =>
+      match load_chain mt (mod_prefixes m) ld with
+      | (true, ld1) =>
+          let key := mod_key (mod_value mt m) m in
+          let ld2 := preload_fromlist mt m key names ld1 in
+          match from_binds mt ld2 key names with
+          | Some bs => (Ok bs, ld2)
+          | None => (Err "ImportError" "", ld2)
           end
       | (false, ld') => (Err "ModuleNotFoundError" "", ld')
       end
@@ -873,17 +910,23 @@ Fixpoint class_body (ev1 : expr -> M value) (attrs : list (string * expr)) : M u
   | (a, e) :: r => do v <~ ev1 e ;; do _ <~ modify (fun s => set_cns (ns_set a v (cns s)) s) ;; class_body ev1 r
   end.
 
+Fixpoint store_all (E : env) (bs : list (string * value)) : M unit :=
+  match bs with
+  | [] => ret tt
+  | (x, v) :: r => do _ <~ store_var E x v ;; store_all E r
+  end.
+
 Definition exec_stmt (fuel : nat) (E : env) (st : stmt) : M unit :=
   match st with
   | SAssign x e => do v <~ eval fuel E e ;; store_var E x v
   | SAug x e => do old <~ load_var E x ;; do v <~ eval fuel E e ;; do r <~ inplace_add old v ;; store_var E x r
-  | SImport _ | SImportAs _ _ | SFrom _ _ _ =>
-      do b <~ (fun s => match import_effect (mods E) (loaded s) st with
-                        | (Ok xv, ld) => (Ok xv, set_loaded ld s)
-                        | (Err n m, ld) => (Err n m, set_loaded ld s)
-                        | (Unsup, ld) => (Unsup, s)
-                        end) ;;
-      store_var E (fst b) (snd b)
+  | SImport _ | SImportAs _ _ | SFrom _ _ _ | SFromN _ _ =>
+      do bs <~ (fun s => match import_effect (mods E) (loaded s) st with
+                         | (Ok xv, ld) => (Ok xv, set_loaded ld s)
+                         | (Err n m, ld) => (Err n m, set_loaded ld s)
+                         | (Unsup, ld) => (Unsup, s)
+                         end) ;;
+      store_all E bs
   | SDef f ps body => do r <~ alloc (OFunc f ps body) ;; store_var E f (PRef r)
   | SClass c attrs =>
       do _ <~ modify (set_cns []) ;;
@@ -948,6 +991,7 @@ Definition wf_stmt (st : stmt) : bool :=
   | SImport m => negb (String.eqb m "__builtins__")
   | SImportAs _ a => negb (String.eqb a "__builtins__")
   | SFrom _ _ a => negb (String.eqb a "__builtins__")
+  | SFromN _ names => negb (mem "__builtins__" (map snd names)) && negb (is_nil names)
   | SDef f ps body => negb (String.eqb f "__builtins__") && nodup_str ps && negb (mem "__builtins__" ps)
                       && negb (inlining_quirk ps body)
                       && wf_expr [] false false body
@@ -973,7 +1017,7 @@ Fixpoint pyimport_ns (mt : list (string * ns)) (b : list stmt) (acc : ns) (ld : 
   match b with
   | [] => Some (acc, ld)
   | st :: r => match import_effect mt ld st with
-               | (Ok (x, v), ld') => pyimport_ns mt r (ns_set x v acc) ld'
+               | (Ok bs, ld') => pyimport_ns mt r (ns_update acc bs) ld'
                | _ => None
                end
   end.
